@@ -16,7 +16,7 @@ from vlib import gen
 from vlib.extract import Package
 
 SDL = """
-type Query { ping(gql: Int, h: Hex, hreq: Hex, id: ID, n: Int, tags: [String!], f: Filter, e: Color, fs: [Filter!], camelCase: Int, in: String, _under: Int, opt: [[Int]], req: [Int], rec: Rec, d: Date, b: Boolean, ni: Int, mix: [Filter], grid: [[Filter!]], Query: String, Variables: Int, _response: String, DATA: Int, operationName: String): Int }
+type Query { ping(hexValue: Hex, from: Hex, gql: Int, h: Hex, hreq: Hex, id: ID, n: Int, tags: [String!], f: Filter, e: Color, fs: [Filter!], camelCase: Int, in: String, _under: Int, opt: [[Int]], req: [Int], rec: Rec, d: Date, b: Boolean, ni: Int, mix: [Filter], grid: [[Filter!]], Query: String, Variables: Int, _response: String, DATA: Int, operationName: String): Int }
 enum Color { RED GREEN in }
 scalar Date
 scalar Hex
@@ -34,6 +34,7 @@ query V7($Query: String, $Variables: Int, $_response: String) { ping(Query: $Que
 query V8($DATA: Int, $operationName: String) { ping(DATA: $DATA, operationName: $operationName) }
 query V9($h: Hex, $hreq: Hex!) { ping(h: $h, hreq: $hreq) }
 query Va($gql: Int) { ping(gql: $gql) }
+query Vb($hexValue: Hex!, $from: Hex!) { ping(hexValue: $hexValue, from: $from) }
 """
 OMIT, NULL = "__omit__", "__null__"
 
@@ -43,6 +44,8 @@ VALUES = {
     "h": [("v", lambda p: 255, "0xff"), ("zero", lambda p: 0, "0x0")],
     "hreq": [("v", lambda p: 16, "0x10"), ("zero", lambda p: 0, "0x0")],
     "gql": [("i", lambda p: 3, 3)],
+    "hexValue": [("v", lambda p: 10, "0xa")],
+    "from": [("v", lambda p: 11, "0xb"), ("zero", lambda p: 0, "0x0")],
     "id": [("s", lambda p: "abc", "abc")],
     "n": [("i", lambda p: 5, 5), ("z", lambda p: 0, 0)],
     "tags": [("l0", lambda p: [], []), ("l2", lambda p: ["a", "b"], ["a", "b"])],
